@@ -173,7 +173,7 @@ _append("C17", "A deterministic gallery of 37 malformed Directory kinds (invalid
 for pid in ("C18", "C19", "C20"):
     CHECKS[pid]["note"] = CHECKS[pid]["note"].replace(
         "Known findings K1/K2 (one lock-owner through two open-owners on one file) are listed in known_findings.jsonl.",
-        "Known finding K1 (NFSv4.1: one lock-owner through two open-owners on one file) is listed in known_findings.jsonl; its NFSv4.0 twin was repaired (87b13f9). The server's range of lockable offsets is 0 .. 2^64-2 after 62d23a8: [x,2^64-1) and [x,EOF] denote the same lockable bytes, byte 2^64-1 matters only for requests that start at it. Same slot/seqid and same operation type(s) with other arguments is unspecified (cached reply or rejection, never side effects).")
+        "The former known findings K1/K2 (one lock-owner through two open-owners on one file) were repaired (aac8f12, 87b13f9): a lock-owner has at most one lock-owner file per file. The server's range of lockable offsets is 0 .. 2^64-2 after 62d23a8: [x,2^64-1) and [x,EOF] denote the same lockable bytes, byte 2^64-1 matters only for requests that start at it. Same slot/seqid and same operation type(s) with other arguments is unspecified (cached reply or rejection, never side effects).")
 _append("C19", "NFSv4.1: CREATE_SESSION replay cache, slot and reply-cache records compared at every snapshot (a request that must not execute leaves them unchanged), duplicates of uncached originals in flight, DESTROY_* while a request is held, random histories with requests held in flight. NFSv4.0: OPEN held in flight with retransmissions parked behind it, seqid wrap-around, retry classes by request content.")
 _append("C20", "Requests that start at offset 2^64-1 are generated for LOCK, LOCKT and LOCKU in both servers (finding F12).")
 _append("C07", "The content of a stats message is the set of updates it incorporates (one bit per dirty release in the driver), so a handle created from a stale read visibly lacks updates (finding F11); ISCC.tla has three guard levels (as pinned / write guard / read guard) and MC_ISCC_store_staleread.cfg turns the counterexample of the middle level into a schedule that is replayed on the real store in every run.") if "C07" in CHECKS else None
